@@ -78,8 +78,39 @@ def grammar_for(types, rng):
     return "\n".join(lines) + "\n"
 
 
+def join_open_angles(text):
+    """Lines whose `<` are not closed on the same line are joined with the following ones until they are (`->` and `=>` do
+    not count): a type spread over several lines becomes one line, its tokens unchanged."""
+    out, cur, depth = [], None, 0
+    for ln in text.split("\n"):
+        bare = ln.replace("->", "").replace("=>", "")
+        d = bare.count("<") - bare.count(">")
+        if cur is None:
+            if d > 0:
+                cur, depth = ln, d
+            else:
+                out.append(ln)
+        else:
+            cur += " " + ln.strip()
+            depth += d
+            if depth <= 0:
+                out.append(cur)
+                cur = None
+    if cur is not None:
+        out.append(cur)
+    return "\n".join(out)
+
+
 def use_sites(rust, n):
-    """{terminal index: [(site name, emitted type string)]} for the six use sites."""
+    """{terminal index: [(site name, emitted type string)]} for the six use sites. The emitted text is read line by line;
+    when that fails it is read once more with multi-line types joined (the tokens of a type do not depend on line breaks)."""
+    try:
+        return use_sites_1(rust, n)
+    except FormatDrift:
+        return use_sites_1(join_open_angles(rust), n)
+
+
+def use_sites_1(rust, n):
     items, _ = rustparse.parse_items(rust)
     by = {it["name"]: it for it in items}
     sites = {i: [] for i in range(n)}
@@ -174,6 +205,15 @@ def check(prop, tier, seed):
     run.sample({"src": srcs[0][:600], "type": groups[0][0]["t"], "predicted_tokens": groups[0][0]["tokens"]})
     # (C) deeper random types judged by TLC
     deep = [random_type(rng, rng.randint(2, 5), False) for _ in range(400 if tier == "quick" else 60000)]
+    # one-dimension scale: nesting depth 40-120, paths of 60 segments, 50 arguments
+    def chain(d):
+        t = {"k": "path", "path": ["Leaf"], "args": []}
+        for i in range(d):
+            t = {"k": "app", "path": ["W%d" % (i % 7)], "args": [t] if i % 3 else [{"k": "unit", "path": [], "args": []}, t]}
+        return t
+    deep += [chain(d) for d in ((40, 41) if tier == "quick" else (40, 41, 80, 120))]
+    deep += [{"k": "path", "path": ["s%d" % i for i in range(60)], "args": []},
+             {"k": "app", "path": ["Many"], "args": [{"k": "path", "path": ["A%d" % i], "args": []} for i in range(50)]}]
     dgroups = [deep[i:i + per] for i in range(0, len(deep), per)]
     dsrcs = [grammar_for(g, rng) for g in dgroups]
     dresps = common.kv("gen", [{"id": i, "src": s, "want": ["rust"]} for i, s in enumerate(dsrcs)], timeout=1800)
